@@ -4,6 +4,30 @@ from .common import *
 ARENA_PROPS = ["C01", "C02", "C03", "C04", "C06", "C07", "C08", "C09", "C10", "C11", "C12", "C18"]
 CRASH_IS_VIOLATION = {"C01", "C02", "C03", "C09", "C12", "C13", "C15", "C16"}
 
+ALLOCATOR_API_OPS = {"allocate", "allocate_zeroed", "grow", "grow_zeroed", "shrink", "deallocate"}
+TRY_WITH_OPS = {"alloc_try_with", "try_alloc_try_with", "alloc_slice_try_fill_with", "alloc_slice_try_fill_iter"}
+
+def also_counts_for(f):
+    """A formula is filed under one property by the trace spec but may decide others as well:
+    e.g. a misaligned or overlapping result of Allocator::grow violates C12 as much as C04/C01."""
+    out = set()
+    p, name, op = f.get("property"), f.get("formula"), f.get("op")
+    if op in ALLOCATOR_API_OPS and p in ("C01", "C02", "C04"):
+        out.add("C12")
+    if op in TRY_WITH_OPS and p in ("C01", "C02"):
+        out.add("C11")
+    if name in ("NothingAllocatedAfterReset", "ResetKeepsAtMostOne", "AtMostOneBlockAfterReset"):
+        out.update({"C03", "C06", "C10"})
+    if name in ("FailureKeepsHeldMemory",):
+        out.add("C09")
+    if name in ("NoDoubleDrop",) and f.get("source") in ("CollTrace",):
+        out.update({"C15", "C16"})
+    if name in ("CapacityNeverOverstated", "RequestThatFitsSucceedsWhateverTheLimit", "ReportedCapacityServableWithoutNewMemory"):
+        out.update({"C06", "C07", "C18"})
+    if name == "LiveBlocksIntact":
+        out.update({"C01", "C12"} if op in ALLOCATOR_API_OPS else {"C01"})
+    return out
+
 def tj(driver, gen, tier, profile, seed, nshards, monitors, features=None, **kw):
     return [dict(driver=driver, gen=gen, tier=tier, profile=profile, seed=seed, shard=i, nshards=nshards,
                  monitors=monitors, features=features, **kw) for i in range(nshards)]
@@ -13,22 +37,24 @@ def arena_corpus(tier, seed, gens, profiles=("dbg", "rel")):
     for g in gens:
         for prof in profiles:
             n = {"quick": 2, "thorough": 8}[tier]
-            jobs += tj("arena_driver", g, tier, prof, seed, n, ["ArenaMonitor", "ArenaTrace"])
+            # volume workloads are one event per bulk call: the strict spec would have to replay millions of steps
+            mons = ["ArenaMonitor"] if g == "volume" else ["ArenaMonitor", "ArenaTrace"]
+            jobs += tj("arena_driver", g, tier, prof, seed, n, mons)
     return jobs
 
 ARENA_GENS = {
-    "C01": ["history", "offset", "random"],
-    "C02": ["history", "random"],
-    "C03": ["history", "random"],
-    "C04": ["offset", "history"],
-    "C06": ["history", "random"],
-    "C07": ["history", "random"],
-    "C08": ["history", "random"],
-    "C09": ["history", "random"],
-    "C10": ["history", "random"],
-    "C11": ["history", "random"],
-    "C12": ["history", "random"],
-    "C18": ["history", "random"],
+    "C01": ["history", "offset", "random", "trywith"],
+    "C02": ["history", "random", "uniform"],
+    "C03": ["history", "random", "fault"],
+    "C04": ["offset", "history", "trywith"],
+    "C06": ["history", "random", "uniform", "limit"],
+    "C07": ["history", "random", "limit"],
+    "C08": ["history", "random", "fault", "limit"],
+    "C09": ["history", "random", "fault"],
+    "C10": ["history", "random", "uniform"],
+    "C11": ["history", "random", "trywith", "fault"],
+    "C12": ["history", "random", "fault"],
+    "C18": ["history", "random", "volume", "limit"],
 }
 
 COLL_GENS = {
